@@ -36,6 +36,12 @@ constrain("MixedMultiply", 1, "BIT", "process_node: second argument must be bina
 constrain("Assert", 0, "BIT", "process_node: condition must be a scalar bit")
 
 
+# variants whose arm reads element data of a value found INSIDE a dependency (a column of a table) whose scalar type type
+# inference fixes: variant -> (scalar type, where)
+VARIANT_INNER = {
+    "Sort": ("BIT", "process_node: the key array must be 2-dimensional BIT"),
+}
+
 # helper-level sites whose scalar type is fixed by type inference: (function suffix, reader, ordinal) -> reason
 CONSTRAINED_SITES = {
     ("extract_columns", "to_flattened_array_u8", 0): "null column: check_table_and_extract_column_types requires a binary array",
@@ -102,6 +108,7 @@ def run(facts, rep, tier):
     ev = facts.bodies[seeds[0]]
     rep.analysed["evaluator_slice_bodies"] = len(layer)
     rep.tables["constrained_operands"] = {"%s/%s" % k: "%s: %s" % v for k, v in CONSTRAINED.items()}
+    rep.tables["constrained_inner"] = {k: "%s: %s" % v for k, v in VARIANT_INNER.items()}
     rep.tables["constrained_sites"] = {"%s|%s#%d" % k: v for k, v in CONSTRAINED_SITES.items()}
     vs = V.variants(facts)
     callers = {}
@@ -155,6 +162,9 @@ def run(facts, rep, tier):
                         for p in judge(cn, cbb, t["args"][det - 1], depth + 1, seen + (name,)):
                             probs.append("via %s: %s" % (name.split("::")[-1], p))
             else:
+                vsr = variants_reaching(bb) if name == ev.id else []
+                if vsr and all(v in VARIANT_INNER for v in vsr):
+                    continue
                 probs.append("scalar type comes from %s (arbitrary)" % det)
         return sorted(set(probs))
 
